@@ -935,6 +935,11 @@ func (e *SpecEnv) call(x *SExpr) *Val {
 				return &Val{T: types.Universe.Lookup("any").Type(), L: []*Term{boxAny(v, e.te)}}
 			case "fresh": // fresh(p): p was allocated during this call
 				v := e.eval(args[0])
+				// allocated after the pre-state: above the pre-state's allocation watermark (every reference that
+				// existed then is at or below it)
+				if e.old != nil && e.old.top != nil {
+					return boolVal(Gt(v.L[0], e.old.top))
+				}
 				return boolVal(UF("isfresh", SBool, v.L[0]))
 			}
 			if bv := e.bvBuiltin(x, callee.Name, args); bv != nil {
